@@ -90,7 +90,9 @@ class DtDomain(Domain):
 
 class TzDomain(DtDomain):
     name = "tz"
-    origin = pd.Timestamp("2020-04-04", tz="Australia/Sydney")  # DST ends 2020-04-05 03:00
+    # DST ends 2020-04-05 03:00 local = tick 7: pieces spanning it have a wall-clock length that differs from the
+    # elapsed length, and local times between tick 6 and tick 8 are ambiguous
+    origin = pd.Timestamp("2020-04-04 20:00", tz="Australia/Sydney")
 
 
 class TzFixedDomain(DtDomain):
